@@ -264,6 +264,13 @@ func (s *scope) CreateScope(ctx context.Context) (Scope, error) {
 		s.rootProvider.scopesMu.Lock()
 		delete(s.rootProvider.scopes, child)
 		s.rootProvider.scopesMu.Unlock()
+
+		// (closed by somebody an initialization function handed it to, it may
+		// have left this scope's table before it was entered as well)
+		s.childrenMu.Lock()
+		delete(s.children, child)
+		s.childrenMu.Unlock()
+
 		return nil, ErrScopeDisposed
 	}
 
